@@ -116,3 +116,9 @@ Theorem C16_source_rules_are_the_model : forall w x out,
 Proof. intros. repeat split; first [apply link_FixedPointMultiplier | apply link_Shifter | apply link_Mux | apply link_AndGate
                                    | apply link_XorGate | apply link_Adder | apply link_FloatingPointMultiplier]. Qed.
 Print Assumptions C16_source_rules_are_the_model.
+
+(* the exponent range of a power-of-two type, as /repo computes it now (get_exp regenerated on this run), is the
+   get_exp of the model: min exponent from the exponent bits, max exponent capped by ceil(log2 max_value) *)
+Theorem C16_source_get_exp : forall t, gen_get_exp t = get_exp t.
+Proof. exact link_get_exp. Qed.
+Print Assumptions C16_source_get_exp.
